@@ -25,12 +25,14 @@ type C12Case struct {
 	Probe  string   `json:"probe,omitempty"`  // replay: mismatch probe on the image after Ops
 	Base   string   `json:"base,omitempty"`   // root set the file is created with ("" = ab)
 	OpsSet string   `json:"opsset,omitempty"` // "" = c12Ops, "shapes" = c12ShapeOps
+	Repeat int      `json:"repeat,omitempty"` // replays of a determinism report: write the uninterrupted session this often
 }
 
 var c12Ops = []string{"put:a", "put:b", "D", "F", "put:a'", "put:i"}
 
-// c12ShapeOps: section shapes the rescan has to step over (2- and 3-byte length prefix, empty data, CIDv0) and a batch
-var c12ShapeOps = []string{"put:L128", "put:e", "D", "F", "put:a0", "many:a,b", "put:L16384"}
+// c12ShapeOps: section shapes the rescan has to step over (2- and 3-byte length prefix, empty data, CIDv0, a 64-byte
+// digest next to the 32-byte ones: two width buckets in one index) and a batch
+var c12ShapeOps = []string{"put:L128", "put:e", "D", "F", "put:a0", "many:a,b", "put:s", "put:L16384"}
 
 func c12OpsOf(cs C12Case) []string {
 	if cs.OpsSet == "shapes" {
@@ -347,22 +349,43 @@ func c12Run(x *kit.Ctx, cs C12Case, ops []string, memo *c12Memo, onlyProbe strin
 			return w
 		}
 		upath := filepath.Join(x.Dir, "c12-uninterrupted.car")
-		os.Remove(upath)
-		defer os.Remove(upath)
-		ufront := cs.Front
-		u, err := c12Open(ufront, upath, order, cs.Opts, false, nil)
-		if err != nil {
-			panic(err)
-		}
-		for _, n := range puts {
-			if err := u.Put(kit.B(n)); err != nil {
+		once := func() []byte {
+			os.Remove(upath)
+			defer os.Remove(upath)
+			u, err := c12Open(cs.Front, upath, order, cs.Opts, false, nil)
+			if err != nil {
 				panic(err)
 			}
+			for _, n := range puts {
+				if err := u.Put(kit.B(n)); err != nil {
+					panic(err)
+				}
+			}
+			if err := u.Finalize(); err != nil {
+				panic(err)
+			}
+			w, _ := os.ReadFile(upath)
+			return w
 		}
-		if err := u.Finalize(); err != nil {
-			panic(err)
+		w := once()
+		// "byte-identical to the uninterrupted session" presupposes that this session's bytes are a function of the
+		// roots, options and puts: the reference is written twice and compared (a replay of such a report repeats it
+		// cs.Repeat times, so that a difference that shows only now and then is confirmed)
+		reps := 2
+		if cs.Repeat > reps {
+			reps = cs.Repeat
 		}
-		w, _ := os.ReadFile(upath)
+		for i := 1; i < reps; i++ {
+			if w2 := once(); !bytes.Equal(w, w2) {
+				var pops []string
+				for _, n := range puts {
+					pops = append(pops, "put:"+n)
+				}
+				x.FailCase(C12Case{Front: cs.Front, Opts: cs.Opts, Ops: pops, Base: cs.Base, OpsSet: cs.OpsSet, Repeat: 400}, "c12:uninterrupted-not-deterministic:"+cs.Front,
+					"two uninterrupted sessions with the same roots, options and puts %v wrote different files (first difference at byte %d of %d/%d)", puts, c12FirstDiff(w, w2), len(w), len(w2))
+				break
+			}
+		}
 		memo.want[k] = w
 		return w
 	}
@@ -611,7 +634,7 @@ func init() {
 		Run:    runC12,
 		Decode: kit.DecodeAs[C12Case],
 		Rule: "every sequence of the depth bound over {Put a, Put b, Put a', Put identity, Discard+reopen, Finalize+reopen} followed by Finalize, x 7 option configurations (7 more one level less deep) x {blockstore.OpenReadWrite, storage.OpenReadableWritable, blockstore.OpenReadWriteFile over ONE caller-owned handle kept across all sessions}; " +
-			"the same over section shapes {128-byte and 16 KiB sections, empty data, CIDv0, PutMany batch} and over files created with root sets {a,a}, {a}, {}, {a,b,c,s}, {a,a,b}; differential oracle: bytes of the uninterrupted session with the same puts, after the final Finalize AND after every intermediate Finalize; every block put is read back from the resumed session; " +
+			"the same over section shapes {128-byte and 16 KiB sections, empty data, CIDv0, sha2-512 block (a second digest width in the index), PutMany batch} and over files created with root sets {a,a}, {a}, {}, {a,b,c,s}, {a,a,b}; differential oracle: bytes of the uninterrupted session with the same puts, after the final Finalize AND after every intermediate Finalize; every block put is read back from the resumed session; " +
 			"on every distinct intermediate file image every single-field mismatch (other/extra/fewer/no roots, a repeated root for a distinct one and vice versa, the same members in other multiplicities, same digest under another codec / as CIDv0, wrong version, data padding +1/+8/+64/-1/to 0) is tried on a copy and must be refused leaving the bytes unchanged; reopen roots cycle through original order, reversed, rotated (nil for no roots); a refusal of a genuinely rearranged list is beyond the statement (outcome beyond-statement:permuted-roots-refused; it must leave the bytes unchanged, and the history continues with the original order, whose refusal is a violation); where a rearranged list was accepted, the uninterrupted session created with that order is a reference too; non-trivial = sequence with >=1 reopen and >=1 put, or a mismatch probe on a distinct image",
 		Bound: func(tier string) map[string]any {
 			d := 6
@@ -622,4 +645,17 @@ func init() {
 		},
 		Assumptions: []string{"the uninterrupted session is the reference (its well-formedness is C05)", "read limits below the session's own header/section sizes are not configured", "the statement's 'same roots' is the same list; that a rearranged list is accepted as the same roots is documented by CarHeader.Matches only and is observed, not required"},
 	})
+}
+
+func c12FirstDiff(a, b []byte) int {
+	n := len(a)
+	if len(b) < n {
+		n = len(b)
+	}
+	for i := 0; i < n; i++ {
+		if a[i] != b[i] {
+			return i
+		}
+	}
+	return n
 }
